@@ -96,7 +96,12 @@ pub fn check_src(c: &SrcCase) -> CheckResult {
                 return Err(Fail::new(format!("C09:from_rng-consumed:{}", info.name), "from_rng did not advance the source by exactly the documented amount").exp_act(need, src.pos));
             }
             // the source continues with the next unread byte
-            let nxt = { use rand_core::RngCore; src.next_u32() };
+            let nxt = {
+                use rand_core::RngCore;
+                let mut b = [0u8; 4];
+                src.fill_bytes(&mut b);
+                u32::from_le_bytes(b)
+            };
             let want_nxt = { let b = c.spec.bytes(need, 4); u32::from_le_bytes([b[0], b[1], b[2], b[3]]) };
             if nxt != want_nxt {
                 return Err(Fail::new("C09:harness-source", "scripted source out of sync (harness fault)").exp_act(want_nxt, nxt));
@@ -119,7 +124,7 @@ pub fn check_src(c: &SrcCase) -> CheckResult {
             let (_, mut model2) = model_from_source(c.ty, &c.spec);
             compare_stream(info.name, "try_from_rng-stream", &mut *t, &mut model2, c.words)?;
             let _ = &mut tc;
-            Ok(CaseInfo::new(varied).class("no-failure").class_if(need > info.seed_len.max(1) && info.engine == Engine::XorShift128, "xorshift-redraw"))
+            Ok(CaseInfo::new(varied).class("no-failure").class_if(c.spec.words_differ, "source-word-methods-differ").class_if(need > info.seed_len.max(1) && info.engine == Engine::XorShift128, "xorshift-redraw"))
         }
         Some(j) => {
             let mut fsrc = FailSrc::new(c.spec.clone(), Some(j), c.token);
@@ -185,7 +190,7 @@ pub fn def(ctx: &Ctx) -> PropDef {
     }
     PropDef {
         id: "C09",
-        rule: "cases = 19 generator types x (a) u64 argument (0, 1, MAX, -PHI, 2^k, 2^k-1, 32-bit, uniform) with the stream (<=700 native words) and == compared against from_seed of the independently computed documented expansion (SplitMix64 stream / PCG32 / ISAAC key layout with one pass; SplitMix64 itself: x is the state); (b) byte-scripted source streams (random, dense, single-bit, leading zero blocks for the linear types) through from_rng and try_from_rng: generator == model built from exactly the bytes handed out (ISAAC: all 256 words, two passes), byte counter exact, next unread byte follows; (c) fallible sources failing at byte j for j across and beyond the amount read: Err carrying exactly the source's error value iff j < amount needed (XorShiftRng: also during a redraw). Non-trivial = u64 != 0, or source content not constant, or failure position > 0; distinct by hash of the case.".into(),
+        rule: "cases = 19 generator types x (a) u64 argument (0, 1, MAX, -PHI, 2^k, 2^k-1, 32-bit, uniform) with the stream (<=700 native words) and == compared against from_seed of the independently computed documented expansion (SplitMix64 stream / PCG32 / ISAAC key layout with one pass; SplitMix64 itself: x is the state); (b) byte-scripted source streams (random, dense, single-bit, leading zero blocks for the linear types; in 30% of the cases the source\u{2019}s next_u32/next_u64 deliver an unrelated stream of their own, since the contract names fill_bytes) through from_rng and try_from_rng: generator == model built from exactly the bytes handed out (ISAAC: all 256 words, two passes), byte counter exact, next unread byte follows; (c) fallible sources failing at byte j for j across and beyond the amount read: Err carrying exactly the source's error value iff j < amount needed (XorShiftRng: also during a redraw). Non-trivial = u64 != 0, or source content not constant, or failure position > 0; distinct by hash of the case.".into(),
         explanation: None,
         assumptions: vec![
             "the documented expansions are modelled independently: refmodel::vigna::splitmix_bytes, refmodel::misc::pcg32_expand (rand_core's documented default), refmodel::isaac with 1 resp. 2 passes".into(),
